@@ -44,6 +44,7 @@ var controlTable = []control{
 	{"C02", "swap-assigns-one-way", "version/version.go", "a[i], a[j] = a[j], a[i]", "a[i] = a[j]", "C02-SORT"},
 	// C03
 	{"C03", "json-quoted-marshaltext", "version/version.go", "return []byte(version.String()), nil", "return []byte(\"\\\"\" + version.String() + \"\\\"\"), nil", "C03-CODEC"},
+	{"C03", "signed-epoch-accepted-again", "version/version.go", "if strings.IndexFunc(trimmed[:colon], func(c rune) bool { return c < '0' || c > '9' }) != -1 {\n\t\t\treturn fmt.Errorf(\"epoch is not an unsigned number\")\n\t\t}\n", "", "C03-TABLE"},
 	{"C03", "epoch-not-reset", "version/version.go", "result.Epoch = 0\n\tresult.Revision = \"\"\n", "result.Revision = \"\"\n", "C03-RESET"},
 	{"C03", "empty-upstream-accepted", "version/version.go", "if len(result.Version) == 0 {\n\t\treturn fmt.Errorf(\"version number is empty\")\n\t}\n\tif !unicode.IsDigit(rune(result.Version[0])) {", "if len(result.Version) > 0 && !unicode.IsDigit(rune(result.Version[0])) {", "C03-TABLE"},
 	// (removing the embedded-white-space test of the version parser is an equivalent mutant: the alphabet tests and the
